@@ -388,7 +388,7 @@ Qed.
 Lemma apply_col_length id d d' : apply_col id d = Ok d' -> length d' = length d.
 Proof.
   unfold apply_col.
-  destruct id as [|[|[|[|[|[|[|[|n]]]]]]]]; cbn [apply_fn]; intros H;
+  destruct id as [|[|[|[|[|[|[|[|[|[|n]]]]]]]]]]; cbn [apply_fn]; intros H;
     try discriminate; injection H as <-;
     rewrite ?map_length, ?rev_length, ?repeat_length, ?seq_length; reflexivity.
 Qed.
